@@ -387,6 +387,123 @@ def wrapper_obligations(S):
     return obls, fns
 
 
+# ----------------------------------------------------------------------------- round / ceil / floor
+
+F64 = z3.Float64()
+RM = {"round": z3.RoundNearestTiesToAway(), "ceil": z3.RoundTowardPositive(), "floor": z3.RoundTowardNegative()}
+
+
+def m_f64_round(ex, st, callee, args, dest_ty, frame, depth):
+    name = callee.split("::")[-1]
+    return [(st, Outcome("ret", Prim("f64", z3.fpRoundToIntegral(RM[name], ex.as_prim(args[0]).e))))]
+
+
+def m_powf(ex, st, callee, args, dest_ty, frame, depth):
+    """10f64.powf(p): an arbitrary member of powf's range for a positive base -- [0, +inf], never NaN"""
+    m = z3.FP(f"multiplier{next(ex.counter)}", F64)
+    st.assume(z3.And(z3.Not(z3.fpIsNaN(m)), z3.fpGEQ(m, z3.FPVal(0.0, F64))))
+    st.trace.append({"kind": "powf", "m": m, "base": args[0], "exp": args[1]})
+    return [(st, Outcome("ret", Prim("f64", m)))]
+
+
+ROUND_ORACLES = [(re.compile(r"<impl f64>::(round|ceil|floor)$"), m_f64_round), (re.compile(r"<impl f64>::powf$"), m_powf)]
+
+
+def round_obligations(S):
+    """round_to_precision(num, precision, f64::{round,ceil,floor}) = fun(num * 10^p) / 10^p.  With the multiplier an
+    arbitrary member of powf's range (0, +inf] and num any finite f64:
+      * the result is never NaN (a NaN would be silently turned into 0.0 by Value::from_f64_or_zero);
+      * when the multiplier is +inf (more decimal places than f64 can express) or the scaled number overflows,
+        rounding cannot change the number: the result is num itself.
+    multiplier == 0 (precision <= -324: rounding to a multiple of 10^324, not representable) is outside the claim."""
+    obls, fns = [], []
+    f = free_fn(S, "round_to_precision", "util")
+    fns.append((f.name, f.text_hash))
+    for fun in ("round", "ceil", "floor"):
+        ex = S.executor(oracles=ROUND_ORACLES, opaque=OPAQUE)
+        ex.solver_timeout_ms = 60000
+        num = z3.FP("num", F64)
+        st = State()
+        st.assume(z3.And(z3.Not(z3.fpIsNaN(num)), z3.Not(z3.fpIsInf(num))))
+        paths = ex.run(f, [Prim("f64", num), Prim("i64", z3.BitVec("precision", 64)), FnItem(f"std::f64::<impl f64>::{fun}")], st)
+        for n_, h in ex.stats["fns_entered"].items():
+            fns.append((n_, h))
+        seen = 0
+        for pi, p in enumerate(paths):
+            def add(tag, post, detail=None):
+                role = f"C29:round_to_precision[{fun}]:{tag}"
+                o = Obl(role, {"C29"}, f"{role}#path{pi}", p, post, detail)
+                o.ex = ex
+                obls.append(o)
+            if p.outcome.kind != "ret":
+                add(p.outcome.kind, z3.BoolVal(False), {"msg": p.outcome.msg})
+                continue
+            pw = [e for e in p.st.trace if e["kind"] == "powf"]
+            if len(pw) != 1:
+                add("multiplier-is-one-power-of-ten", z3.BoolVal(False), {"powf_calls": len(pw)})
+                continue
+            seen += 1
+            m = pw[0]["m"]
+            base = ex.as_prim(pw[0]["base"]).e
+            exp = ex.as_prim(pw[0]["exp"]).e
+            add("multiplier-is-ten-to-the-precision", z3.And(z3.fpEQ(base, z3.FPVal(10.0, F64)), exp == z3.fpSignedToFP(z3.RNE(), z3.BitVec("precision", 64), F64)))
+            r = ex.as_prim(p.outcome.value).e
+            pos = z3.fpGT(m, z3.FPVal(0.0, F64))
+            scaled = z3.fpMul(z3.RNE(), num, m)
+            # generalised over the product: every occurrence of num * m is replaced by one arbitrary float (sound for
+            # validity; the 64-bit multiplier is what the bit-blaster cannot get through)
+            sc = z3.FP("scaled_any", F64)
+            import copy
+            pg = copy.copy(p)
+            pg.st = p.st.fork()
+            pg.st.pc = [z3.substitute(c, (scaled, sc)) for c in p.st.pc]
+            nan_post = z3.substitute(z3.Implies(pos, z3.Not(z3.fpIsNaN(r))), (scaled, sc))
+            role = f"C29:round_to_precision[{fun}]:finite-input-never-yields-nan"
+            og = Obl(role, {"C29"}, f"{role}#path{pi}", pg, nan_post, {"generalised": "num * multiplier replaced by an arbitrary f64 in path condition and result"})
+            og.ex = ex
+            og.fallback = (p, z3.Implies(pos, z3.Not(z3.fpIsNaN(r))))
+            obls.append(og)
+            add("precision-beyond-f64-range-leaves-the-number-unchanged", z3.Implies(z3.fpIsInf(m), z3.fpEQ(r, num)))
+            add("scaled-overflow-leaves-the-number-unchanged", z3.Implies(z3.And(pos, z3.Not(z3.fpIsInf(m)), z3.fpIsInf(scaled)), z3.fpEQ(r, num)))
+            # on the path where nothing overflowed the result is, term for term, fun(num * m) / m
+            expected = z3.fpDiv(z3.RNE(), z3.fpRoundToIntegral(RM[fun], scaled), m)
+            same_term = z3.simplify(r).eq(z3.simplify(expected)) or z3.simplify(r).eq(z3.simplify(num))
+            add("result-is-the-rounded-scaled-number-or-the-number-itself", z3.BoolVal(bool(same_term)), {"result": str(z3.simplify(r))[:160]})
+        if not seen:
+            raise Unencodable(f"round_to_precision[{fun}]: no returning path (vacuous)")
+    # the three stdlib entry points hand the float and the precision to round_to_precision with their own rounding function
+    for name, hint, fun in (("round", "round", "round"), ("ceil", "ceil", "ceil"), ("floor", "floor", "floor")):
+        cands = [x for x in S.prog.free.get(name, []) if x.ret.startswith("std::result::Result<value::value::Value") and len(x.params) == 2]
+        if len(cands) != 1:
+            raise Unencodable(f"stdlib {name}: {len(cands)} bodies")
+        g = cands[0]
+        fns.append((g.name, g.text_hash))
+        ex = S.executor(oracles=WRAP_ORACLES[:1] + [(re.compile(r"^round_to_precision::<"), Recorder("round_to_precision"))], opaque=WRAP_OPAQUE + [r"from_f64_or_zero$", r"NotNan::<f64>::into_inner$"])
+        a0, a1 = ex.fresh(VAL, "arg0"), ex.fresh(VAL, "arg1")
+        n_float = 0
+        for pi, p in enumerate(ex.run(g, [a0, a1])):
+            role = f"C29:{name}:hands-float-and-precision-to-round_to_precision"
+            if p.outcome.kind != "ret":
+                o = Obl(f"C04:{name}:{p.outcome.kind}", {"C04", "C29"}, f"C04:{name}:{p.outcome.kind}#path{pi}", p, z3.BoolVal(False), {"msg": p.outcome.msg})
+                o.ex = ex
+                obls.append(o)
+                continue
+            calls = [e for e in p.st.trace if e["kind"] == "round_to_precision"]
+            if not calls:
+                continue
+            n_float += 1
+            nm = calls[0]["names"]
+            callee_ok = any(True for _ in [0])
+            fun_item = calls[0]["args"][2]
+            ok = isinstance(fun_item, FnItem) and fun_item.text.endswith(f"<impl f64>::{fun}") and "Float" in nm[0] and "Integer" in nm[1] and "round_to_precision#" in ex.val_name(p.st, p.outcome.value)
+            o = Obl(role, {"C29"}, f"{role}#path{pi}", p, z3.BoolVal(bool(ok)), {"call": [x[:80] for x in nm], "result": ex.val_name(p.st, p.outcome.value)[:160]})
+            o.ex = ex
+            obls.append(o)
+        if not n_float:
+            raise Unencodable(f"stdlib {name}: no path reaches round_to_precision (vacuous)")
+    return obls, fns
+
+
 def obligations(S=None, radices=(2, 10, 16, 36), max_digits=2):
     S = S or session()
     obls, fns = [], []
@@ -398,6 +515,9 @@ def obligations(S=None, radices=(2, 10, 16, 36), max_digits=2):
     obls += o
     fns += f
     o, f = wrapper_obligations(S)
+    obls += o
+    fns += f
+    o, f = round_obligations(S)
     obls += o
     fns += f
     return obls, sorted(set(fns))
@@ -415,6 +535,19 @@ def replayer(o, model):
         src = f".r = abs({i})\n" if i != -(1 << 63) else ".r = abs(-9223372036854775807 - 1)\n"
         want = abs(i) if i != -(1 << 63) else -(1 << 63)
         return "run", {"source": src, "event": {}}, {"outcome": "ok", "event_eq": {"r": {"Integer": str(want)}}}
+    if ":round_to_precision[" in role or role.endswith(":hands-float-and-precision-to-round_to_precision"):
+        import struct
+
+        def bits(x):
+            return {"Float": "0x%016x" % struct.unpack("<Q", struct.pack("<d", x))[0]}
+        lines, want = [], {}
+        cases = [("round", "1.5", 309, 1.5), ("ceil", "-2.5", 400, -2.5), ("floor", "1.5", 330, 1.5), ("round", "1.2345", 2, 1.23), ("ceil", "1.201", 2, 1.21),
+                 ("floor", "1.209", 2, 1.2), ("round", "0.0", 400, 0.0), ("round", "float!(.big)", 10, 1e300), ("ceil", "float!(.big)", 10, 1e300), ("floor", "float!(.nbig)", 10, -1e300),
+                 ("round", "2.5", 0, 3.0), ("round", "-2.5", 0, -3.0), ("floor", "-0.5", 0, -1.0), ("ceil", "0.5", 0, 1.0)]
+        for k, (fn, arg, prec, exp) in enumerate(cases):
+            lines.append(f".r{k} = {fn}({arg}, precision: {prec})")
+            want[f"r{k}"] = bits(exp)
+        return "run", {"source": "\n".join(lines) + "\n", "event": {"big": 1e300, "nbig": -1e300}}, {"outcome": "ok", "event_eq": want}
     if ":format_int:" in role or ":parse_int[" in role:
         # one program exercising the documented behaviour of both wrappers on boundary values
         lines, want = [], {}
